@@ -54,7 +54,7 @@ def success_walk(fn, entry, limit=400):
     return out
 
 
-def origin_call(fn, op, depth=12):
+def origin_call(fn, op, depth=30):
     """block of the operand-consuming call an operand's value comes from"""
     p = op_place(op)
     while p is not None and depth > 0:
@@ -62,7 +62,13 @@ def origin_call(fn, op, depth=12):
         l = p["l"]
         sd = fn.single_def(l)
         if sd is None:
-            return None
+            # the result place of an inlined helper: `Ok(value)` on its success path, the re-raised residual on the others
+            ds = [d_ for d_ in fn.defs().get(l, []) if not (d_[0] == "call" and kit.is_from_residual(callee_of(d_[3])))
+                  and not (d_[0] == "stmt" and d_[3]["r"]["k"] == "agg" and d_[3]["r"].get("variant") in ("Err", "None"))]
+            if len(ds) == 1:
+                sd = ds[0]
+            else:
+                return None
         kind, b, i, node = sd
         if kind == "call":
             c = callee_of(node)
@@ -84,6 +90,8 @@ def origin_call(fn, op, depth=12):
             p = op_place(r["a"])
         elif r["k"] == "ref":
             p = r["p"]
+        elif r["k"] == "agg" and r.get("variant") in ("Ok", "Some") and len(r.get("ops", [])) == 1:
+            p = op_place(r["ops"][0])          # Ok(value) handed back by an inlined helper
         else:
             return None
     return None
@@ -360,7 +368,17 @@ def run(ctx):
             diff = {k: (got.get(k), want.get(k)) for k in set(got) | set(want) if got.get(k) != want.get(k)}
             ctx.violation("table|%s" % what, f.file_line(), "the %s table differs from the ISA/README: %s (code, spec)" % (what, diff))
     pt = ctx.fn(P + "parse_trap")
-    tk = {k: (v[1] if v and v[0] == "const" else None) for k, v in tables.enum_const_table(prog, pt, "lace::symbol::TrapKind").items() if k != "Generic"}
+    def _vec(v):
+        # the vector may be wrapped by a helper's `Some(..)` (alias -> Some(vector), generic trap -> None) or a cast
+        for _ in range(4):
+            if v and v[0] == "agg" and v[1][0] == "adt" and v[1][2] == "Some" and len(v[2]) == 1:
+                v = v[2][0]
+            elif v and v[0] == "cast":
+                v = v[3]
+            else:
+                break
+        return v[1] if v and v[0] == "const" else None
+    tk = {k: _vec(v) for k, v in tables.enum_const_table(prog, pt, "lace::symbol::TrapKind").items() if k != "Generic"}
     wantv = {k.capitalize(): v for k, v in spec["trap_vectors"].items()}
     ctx.instance(len(tk))
     ok = tk == wantv
